@@ -147,7 +147,7 @@ func VerifC02Book(v *verifrt.T) { c02history(v, nil) }
 // publish. These are the shapes in which duplicate and colliding filters meet the
 // per-connection bookkeeping.
 func VerifC02Shapes(v *verifrt.T) {
-	shapes := [][]int{{0, 0, 1, 2}, {0, 0, 1, 1, 2}, {0, 1, 0, 1, 2}, {0, 0, 2, 1, 2}}
+	shapes := [][]int{{0, 0, 1, 2}, {0, 0, 1, 1, 2}, {0, 1, 0, 1, 2}, {0, 0, 2, 1, 2}, {0, 0, 0, 1, 2}} // the last: three filters that may share one bookkeeping bucket
 	sh := v.Choice(len(shapes), "shape")
 	c02historyN(v, shapes[sh], sh == 0)
 }
